@@ -70,6 +70,18 @@ MODELS = {
     "t_twohash2":  M([G1, G2, B3], hashes=("h1", "h2"), parts=2, pays=2, clock=3),
 }
 
+def put(path, text):
+    """write only when the content changes, and atomically: setup regenerates the instances while other checks may be
+    reading them"""
+    try:
+        if open(path).read() == text:
+            return
+    except FileNotFoundError:
+        pass
+    tmp = f"{path}.{os.getpid()}.tmp"
+    open(tmp, "w").write(text)
+    os.replace(tmp, path)
+
 def tla_str(x):
     return '"' + x + '"'
 
@@ -143,7 +155,7 @@ EmitAll == IF \\/ EmitRate = 1 \\/ RandomElement(1..EmitRate) = 1
 ====
 """
     os.makedirs(f"{SPEC}/mc", exist_ok=True)
-    open(f"{SPEC}/mc/{mod}.tla", "w").write(tla)
+    put(f"{SPEC}/mc/{mod}.tla", tla)
     consts = f"""CONSTANTS
   Hashes <- HashesM
   Cfg <- CfgM
@@ -167,7 +179,7 @@ VIEW View
 CHECK_DEADLOCK FALSE
 """
     m["_consts"] = consts
-    open(f"{SPEC}/mc/{mod}.cfg", "w").write(check_cfg(m, m["props"] or ALLPROPS))
+    put(f"{SPEC}/mc/{mod}.cfg", check_cfg(m, m["props"] or ALLPROPS))
 
 ALLPROPS = "PC01 PC02 PC03 PC04 PC05 PC06 PC07 PC08 PC11 PC12 PC13 PC15 PC16 PAudit"
 
@@ -293,6 +305,8 @@ CNext ==
      THEN UNCHANGED <<vars, off, bind>>
      ELSE IF Line.ev = "probe"
      THEN off' = TRUE /\ UNCHANGED <<vars, bind>>   \\* probe HTLCs are not part of this instance's catalogue
+     ELSE IF budget.phase = "probe" /\ ((Line.ev = "payreturn" /\ Line.outcome # "complete") \/ (Line.ev = "partdone" /\ Line.how # "complete"))
+     THEN off' = TRUE /\ UNCHANGED <<vars, bind>>   \\* the instance's probe phase assumes a cooperative recipient: not this run
      ELSE IF ENABLED (Explain /\ Same)
      THEN Explain /\ Same /\ bind' = Bound /\ UNCHANGED off
      ELSE /\ PrintT(<<"DRIFT", l, Line.ev>>)
@@ -303,14 +317,14 @@ CAccepted ==
   ELSE PrintT(<<"CSTUCK", TLCGet("stats").diameter, N>>) /\ FALSE
 ====
 """
-    open(f"{SPEC}/mc/{mod}.tla", "w").write(tla)
+    put(f"{SPEC}/mc/{mod}.tla", tla)
     cfg = m["_consts"].format(rate=1, frate=0)
     import re
     for k, v in (("MaxParts", 60), ("MaxPays", 60), ("MaxCrash", 60), ("MaxClock", 1000000), ("MaxW", 60), ("MaxR", 60), ("Direct", 60)):
         cfg = re.sub(rf"  {k} = \d+", f"  {k} = {v}", cfg)
     cfg = cfg.replace("HeightSet <- HeightsM", "HeightSet <- AnyHeight")
     cfg = cfg.replace("INIT SInit\nNEXT SNext\nVIEW View\n", "SPECIFICATION CSpec\nPOSTCONDITION CAccepted\n")
-    open(f"{SPEC}/mc/{mod}.cfg", "w").write(cfg)
+    put(f"{SPEC}/mc/{mod}.cfg", cfg)
 
 def write_live(name, m, frozen=None):
     """ML_<name>: liveness of instance <name> under weak fairness of the environment (C06), or with the environment
@@ -355,7 +369,7 @@ Answered == \A i \in HtlcIds : htlc[i].hash \in FairHashes =>
                ((htlc[i].st = "held") ~> (htlc[i].st = "answered"))
 ====
 """
-    open(f"{SPEC}/mc/{mod}.tla", "w").write(tla)
+    put(f"{SPEC}/mc/{mod}.tla", tla)
     cfgt = f"""CONSTANTS
   Hashes <- HashesM
   Cfg <- CfgM
@@ -375,7 +389,7 @@ SPECIFICATION LSpec
 PROPERTY Answered
 CHECK_DEADLOCK FALSE
 """
-    open(f"{SPEC}/mc/{mod}.cfg", "w").write(cfgt)
+    put(f"{SPEC}/mc/{mod}.cfg", cfgt)
 
 def scenario(name):
     m = MODELS[name]
